@@ -197,6 +197,46 @@ def rule_b(ctx, idx, A, errcls):
             )
 
 
+def _loop_error_reported_first(idx, fi, h, errcls):
+    """The handler keeps what it caught in a local list (errors gathered while independent branches go on); in the function that
+    owns the list, the first statement after that which can raise is `if <those of the list that are RecursiveModelStructure>: raise
+    <the first of them>` - so a reference loop is always reported as one, whatever else failed."""
+    if h.name is None or fi is None:
+        return False
+    apps = [c for st in h.body for c in ast.walk(st) if isinstance(c, ast.Call) and isinstance(c.func, ast.Attribute) and c.func.attr in ("append", "add") and isinstance(c.func.value, ast.Name)
+            and any(isinstance(x, ast.Name) and x.id == h.name for a in c.args for x in ast.walk(a))]
+    if not apps:
+        return False
+    lst = apps[0].func.value.id
+    owner = fi
+    while owner is not None and not any(isinstance(st, ast.Assign) and any(isinstance(t, ast.Name) and t.id == lst for t in st.targets) for st in owner.node.body):
+        owner = owner.parent
+    if owner is None:
+        return False
+    ename = errcls.name if hasattr(errcls, "name") else "RecursiveModelStructure"
+    body = owner.node.body
+    for st in body:
+        if isinstance(st, (ast.FunctionDef, ast.Assign, ast.For, ast.While, ast.Expr)) and not isinstance(st, ast.If):
+            if isinstance(st, (ast.For, ast.While, ast.Expr)) and any(isinstance(x, ast.Raise) for x in ast.walk(st)):
+                return False
+            continue
+        if isinstance(st, ast.If):
+            if not any(isinstance(x, ast.Raise) for x in ast.walk(st)):
+                continue
+            # the first statement that raises: must be the loop-error report
+            t = st.test
+            defs = [a.value for a in body if isinstance(a, ast.Assign) and isinstance(t, ast.Name) and any(isinstance(x, ast.Name) and x.id == t.id for x in a.targets)]
+            comp = defs[0] if len(defs) == 1 else t
+            ok_comp = isinstance(comp, (ast.ListComp, ast.GeneratorExp)) and len(comp.generators) == 1 and isinstance(comp.generators[0].iter, ast.Name) and comp.generators[0].iter.id == lst \
+                and any(isinstance(c, ast.Call) and K.src(c.func) == "isinstance" and len(c.args) == 2 and K.src(c.args[1]).split(".")[-1] == ename for i_ in comp.generators[0].ifs for c in ast.walk(i_))
+            rz = [x for x in st.body if isinstance(x, ast.Raise)]
+            ok_raise = len(st.body) == 1 and rz and isinstance(rz[0].exc, ast.Subscript) and isinstance(t, ast.Name) and K.src(rz[0].exc.value) == t.id
+            return bool(ok_comp and ok_raise and not st.orelse)
+        if any(isinstance(x, ast.Raise) for x in ast.walk(st)):
+            return False
+    return False
+
+
 def rule_c(ctx, idx, A, errcls):
     ctx.rule(
         "C14.c",
@@ -620,6 +660,8 @@ def rule_j(ctx, idx, A, errcls):
                     break
             if reraises(h, is_cli):
                 ctx.hold("C14.j", con, mod.rel, h.lineno, "the handler hands the error on (re-raise%s)" % (" / non-zero exit" if is_cli else ""))
+            elif _loop_error_reported_first(idx, fi, h, errcls):
+                ctx.hold("C14.j", con, mod.rel, h.lineno, "the errors are gathered and the recursive-model error among them is raised first, unchanged, before anything else is reported")
             else:
                 ctx.violate("C14.j", con, mod.rel, h.lineno, "`except %s` around `%s` absorbs the recursive-model error: a command on a reference loop is evaluated here, the loop error raised underneath is caught with the rest and the run goes on - the cyclic model is accepted (or its error replaced by whatever fails next)" % (K.src(h.type) if h.type is not None else "", K.src(ev)[:50]))
             break  # the first admitting handler is the one that catches it
